@@ -23,43 +23,48 @@ struct Target {
     func: &'static str,
     calls: &'static [(&'static str, &'static str)], // rust callee / method name -> gallina function
     deps: &'static [&'static str],                  // other targets this one needs
+    imports: &'static str,                          // further modules the generated file needs
 }
 
 const TARGETS: &[Target] = &[
     Target { name: "side_partial_cmp", file: "src/bounds/side.rs", impl_trait: Some("PartialOrd"), impl_self: Some("Side"),
-             func: "partial_cmp", calls: &[], deps: &[] },
+             func: "partial_cmp", calls: &[], deps: &[], imports: "" },
     Target { name: "ub_partial_cmp", file: "src/bounds/userbounds.rs", impl_trait: Some("PartialOrd"), impl_self: Some("UserBounds"),
-             func: "partial_cmp", calls: &[("partial_cmp", "gen_side_partial_cmp")], deps: &["side_partial_cmp"] },
+             func: "partial_cmp", calls: &[("partial_cmp", "gen_side_partial_cmp")], deps: &["side_partial_cmp"], imports: "" },
     Target { name: "ub_matches", file: "src/bounds/userbounds.rs", impl_trait: Some("UserBoundsTrait"), impl_self: Some("UserBounds"),
-             func: "matches", calls: &[], deps: &[] },
+             func: "matches", calls: &[], deps: &[], imports: "" },
     Target { name: "ub_try_into_range", file: "src/bounds/userbounds.rs", impl_trait: Some("UserBoundsTrait"), impl_self: Some("UserBounds"),
-             func: "try_into_range", calls: &[], deps: &[] },
+             func: "try_into_range", calls: &[], deps: &[], imports: "" },
     Target { name: "complement_std_range", file: "src/bounds/userbounds.rs", impl_trait: None, impl_self: None,
-             func: "complement_std_range", calls: &[], deps: &[] },
+             func: "complement_std_range", calls: &[], deps: &[], imports: "" },
     Target { name: "ub_new", file: "src/bounds/userbounds.rs", impl_trait: Some("UserBoundsTrait"), impl_self: Some("UserBounds"),
-             func: "new", calls: &[], deps: &[] },
+             func: "new", calls: &[], deps: &[], imports: "" },
     Target { name: "ub_from_range", file: "src/bounds/userbounds.rs", impl_trait: Some("From"), impl_self: Some("UserBounds"),
-             func: "from", calls: &[("UserBounds::new", "gen_ub_new")], deps: &["ub_new"] },
+             func: "from", calls: &[("UserBounds::new", "gen_ub_new")], deps: &["ub_new"], imports: "" },
     Target { name: "ub_unpack", file: "src/bounds/userbounds.rs", impl_trait: Some("UserBoundsTrait"), impl_self: Some("UserBounds"),
-             func: "unpack", calls: &[("UserBounds::new", "gen_ub_new"), ("try_into_range", "gen_ub_try_into_range")], deps: &["ub_new", "ub_try_into_range"] },
+             func: "unpack", calls: &[("UserBounds::new", "gen_ub_new"), ("try_into_range", "gen_ub_try_into_range")], deps: &["ub_new", "ub_try_into_range"], imports: "" },
     Target { name: "ub_complement", file: "src/bounds/userbounds.rs", impl_trait: Some("UserBoundsTrait"), impl_self: Some("UserBounds"),
              func: "complement", calls: &[("try_into_range", "gen_ub_try_into_range"), ("complement_std_range", "gen_complement_std_range"), ("into", "gen_ub_from_range")],
-             deps: &["ub_try_into_range", "complement_std_range", "ub_from_range"] },
+             deps: &["ub_try_into_range", "complement_std_range", "ub_from_range"], imports: "" },
     Target { name: "ubl_bounds_only", file: "src/bounds/userboundslist.rs", impl_trait: None, impl_self: Some("UserBoundsList"),
-             func: "get_userbounds_only", calls: &[], deps: &[] },
+             func: "get_userbounds_only", calls: &[], deps: &[], imports: "" },
     Target { name: "ubl_is_sortable", file: "src/bounds/userboundslist.rs", impl_trait: None, impl_self: Some("UserBoundsList"),
-             func: "is_sortable", calls: &[("get_userbounds_only", "gen_ubl_bounds_only")], deps: &["ubl_bounds_only"] },
+             func: "is_sortable", calls: &[("get_userbounds_only", "gen_ubl_bounds_only")], deps: &["ubl_bounds_only"], imports: "" },
     Target { name: "ubl_is_sorted", file: "src/bounds/userboundslist.rs", impl_trait: None, impl_self: Some("UserBoundsList"),
-             func: "is_sorted", calls: &[("get_userbounds_only", "gen_ubl_bounds_only"), ("<=UserBounds", "gen_ub_partial_cmp")], deps: &["ubl_bounds_only", "ub_partial_cmp"] },
+             func: "is_sorted", calls: &[("get_userbounds_only", "gen_ubl_bounds_only"), ("<=UserBounds", "gen_ub_partial_cmp")], deps: &["ubl_bounds_only", "ub_partial_cmp"], imports: "" },
     Target { name: "ubl_has_negative_indices", file: "src/bounds/userboundslist.rs", impl_trait: None, impl_self: Some("UserBoundsList"),
-             func: "has_negative_indices", calls: &[("get_userbounds_only", "gen_ubl_bounds_only")], deps: &["ubl_bounds_only"] },
+             func: "has_negative_indices", calls: &[("get_userbounds_only", "gen_ubl_bounds_only")], deps: &["ubl_bounds_only"], imports: "" },
     Target { name: "ubl_is_forward_only", file: "src/bounds/userboundslist.rs", impl_trait: None, impl_self: Some("UserBoundsList"),
              func: "is_forward_only", calls: &[("is_sortable", "gen_ubl_is_sortable"), ("is_sorted", "gen_ubl_is_sorted"), ("has_negative_indices", "gen_ubl_has_negative_indices")],
-             deps: &["ubl_is_sortable", "ubl_is_sorted", "ubl_has_negative_indices"] },
+             deps: &["ubl_is_sortable", "ubl_is_sorted", "ubl_has_negative_indices"], imports: "" },
+    Target { name: "fast_try_from", file: "src/fast_lane.rs", impl_trait: Some("TryFrom"), impl_self: Some("FastOpt"),
+             func: "try_from", calls: &[], deps: &[], imports: "Model.Scan Model.Regex Model.Opt Tie.RsOpt" },
+    Target { name: "stream_try_from", file: "src/stream.rs", impl_trait: Some("TryFrom"), impl_self: Some("StreamOpt"),
+             func: "try_from", calls: &[("ForwardBounds::try_from", "model_forward_try_from")], deps: &[], imports: "Model.Scan Model.Regex Model.Opt Model.Stream Tie.RsOpt" },
 ];
 
 #[derive(Clone, PartialEq, Debug)]
-enum Ty { I32, Usize, Bool, Side, UB, Range, Opt(Box<Ty>), List(Box<Ty>), Other }
+enum Ty { I32, Usize, Bool, Side, UB, Range, Opt(Box<Ty>), List(Box<Ty>), OptRec, BType, Bytes, Other }
 
 type R<T> = std::result::Result<T, String>;
 
@@ -98,6 +103,10 @@ fn unit_ctor(p: &str) -> Option<&'static str> {
         "Ordering::Less" => "Lt",
         "Ordering::Equal" => "Eq",
         "Ordering::Greater" => "Gt",
+        "BoundsType::Fields" => "BFields",
+        "BoundsType::Bytes" => "BBytes",
+        "BoundsType::Characters" => "BChars",
+        "BoundsType::Lines" => "BLines",
         "true" => "true",
         "false" => "false",
         _ => return None,
@@ -116,7 +125,27 @@ fn ctor1(p: &str) -> Option<(&'static str, Ty)> {
     })
 }
 
-fn field(name: &str) -> Option<(&'static str, Ty)> {
+fn field(recv: &Ty, name: &str) -> Option<(&'static str, Ty)> {
+    if *recv == Ty::OptRec {
+        // src/options.rs: struct Opt  ->  Model/Opt.v: Record opt
+        return Some(match name {
+            "delimiter" => ("o_delim", Ty::Bytes),
+            "eol" => ("o_eol", Ty::Other),
+            "bounds" => ("o_bounds", Ty::Other),
+            "bounds_type" => ("o_btype", Ty::BType),
+            "only_delimited" => ("o_only_delimited", Ty::Bool),
+            "greedy_delimiter" => ("o_greedy", Ty::Bool),
+            "compress_delimiter" => ("o_compress", Ty::Bool),
+            "replace_delimiter" => ("o_replace", Ty::Opt(Box::new(Ty::Bytes))),
+            "trim" => ("o_trim", Ty::Opt(Box::new(Ty::Other))),
+            "complement" => ("o_complement", Ty::Bool),
+            "join" => ("o_join", Ty::Bool),
+            "json" => ("o_json", Ty::Bool),
+            "fallback_oob" => ("o_fallback", Ty::Opt(Box::new(Ty::Bytes))),
+            "regex_bag" => ("o_regex", Ty::Opt(Box::new(Ty::Other))),
+            _ => return None,
+        });
+    }
     Some(match name {
         "l" => ("bl", Ty::Side),
         "r" => ("br", Ty::Side),
@@ -150,6 +179,8 @@ fn ty_of_type(t: &Type) -> (String, Ty) {
                 "Ordering" => ("comparison".into(), Ty::Other),
                 "UserBounds" => ("ubound".into(), Ty::UB),
                 "UserBoundsList" => ("ublist".into(), Ty::Other),
+                "Opt" => ("opt".into(), Ty::OptRec),
+                "u8" => ("byte".into(), Ty::Other),
                 "BoundOrFiller" => ("bof".into(), Ty::Other),
                 "Range" => ("(Z * Z)%type".into(), Ty::Range),
                 "Option" | "Result" => { let (c, t) = arg0(); (format!("(option {})", c), Ty::Opt(Box::new(t))) }
@@ -188,16 +219,20 @@ impl Cx {
     fn ty(&self, e: &Expr) -> Ty {
         match e {
             Expr::Lit(l) => match &l.lit { Lit::Bool(_) => Ty::Bool, Lit::Int(i) => match i.suffix() { "usize" => Ty::Usize, _ => Ty::I32 }, _ => Ty::Other },
+            Expr::Path(p) if path_str(&p.path).starts_with("BoundsType::") => Ty::BType,
             Expr::Path(p) => { let s = path_str(&p.path); self.lookup(&s).unwrap_or(if unit_ctor(&s).map_or(false, |c| c == "true" || c == "false") { Ty::Bool } else { Ty::Other }) }
             Expr::Paren(p) => self.ty(&p.expr),
             Expr::Reference(r) => self.ty(&r.expr),
             Expr::Unary(u) => match u.op { UnOp::Not(_) => Ty::Bool, _ => self.ty(&u.expr) },
             Expr::Cast(c) => ty_of_type(&c.ty).1,
-            Expr::Field(f) => match &f.member { Member::Named(n) => field(&n.to_string()).map_or(Ty::Other, |x| x.1), _ => Ty::Other },
+            Expr::Field(f) => match &f.member { Member::Named(n) => field(&self.ty(&f.base), &n.to_string()).map_or(Ty::Other, |x| x.1), _ => Ty::Other },
             Expr::Try(t) => match self.ty(&t.expr) { Ty::Opt(t) => *t, _ => Ty::Other },
             Expr::MethodCall(m) => match m.method.to_string().as_str() {
                 "is_positive" | "is_negative" | "is_some" | "is_none" => Ty::Bool,
-                "clone" | "into_iter" | "iter" => self.ty(&m.receiver),
+                "clone" | "into_iter" | "iter" | "as_bytes" | "as_ref" | "to_owned" | "as_deref" => self.ty(&m.receiver),
+                "len" => Ty::Usize,
+                "first" => Ty::Opt(Box::new(Ty::Other)),
+                "unwrap" | "expect" => match self.ty(&m.receiver) { Ty::Opt(t) => *t, _ => Ty::Other },
                 name => self.call_ty.get(name).cloned().unwrap_or(Ty::Other),
             },
             Expr::Call(c) => match &*c.func {
@@ -250,7 +285,7 @@ impl Cx {
             Expr::Field(f) => {
                 let base = match self.pure(&f.base)? { Some(b) => b, None => return Ok(None) };
                 match &f.member {
-                    Member::Named(n) => match field(&n.to_string()) { Some((g, _)) => format!("({} {})", g, base), None => return Err(format!("field `{}`", n)) },
+                    Member::Named(n) => match field(&self.ty(&f.base), &n.to_string()) { Some((g, _)) => format!("({} {})", g, base), None => return Err(format!("field `{}`", n)) },
                     _ => return Err("tuple field".into()),
                 }
             }
@@ -284,7 +319,9 @@ impl Cx {
                     ("is_positive", 0) => format!("(0 <? {})", recv),
                     ("is_negative", 0) => format!("({} <? 0)", recv),
                     ("cmp", 1) => format!("(i32_cmp {} {})", recv, args[0]),
-                    ("clone", 0) | ("into_iter", 0) | ("iter", 0) => recv,
+                    ("clone", 0) | ("into_iter", 0) | ("iter", 0) | ("as_bytes", 0) | ("as_ref", 0) | ("to_owned", 0) | ("as_deref", 0) => recv,
+                    ("len", 0) => format!("(Z.of_nat (length {}))", recv),
+                    ("first", 0) => format!("(hd_error {})", recv),
                     ("is_none", 0) => format!("(match {} with None => true | _ => false end)", recv),
                     ("is_some", 0) => format!("(match {} with None => false | _ => true end)", recv),
                     _ => return Err(format!("method `{}`", name)),
@@ -293,6 +330,7 @@ impl Cx {
             Expr::Call(c) => {
                 let f = match &*c.func { Expr::Path(p) => path_str(&p.path), _ => return Err("call of a non-path".into()) };
                 if self.calls.contains_key(&f) { return Ok(None); }
+                if f == "Err" { return Ok(Some("None".to_string())); }
                 let mut args = vec![];
                 for a in &c.args { match self.pure(a)? { Some(x) => args.push(x), None => return Ok(None) } }
                 if f == "Err" { "None".to_string() }
@@ -305,6 +343,7 @@ impl Cx {
                 for a in &t.elems { match self.pure(a)? { Some(x) => xs.push(x), None => return Ok(None) } }
                 if xs.is_empty() { "tt".into() } else { format!("({})", xs.join(", ")) }
             }
+            Expr::Struct(s) if struct_ctor(&path_str(&s.path)).is_some() => return Ok(None),
             Expr::Struct(s) if path_str(&s.path) == "UserBounds" => {
                 let mut vals: HashMap<String, String> = HashMap::new();
                 for f in &s.fields {
@@ -359,6 +398,8 @@ impl Cx {
             BinOp::Ne(_) if intlike => format!("(negb ({} =? {}))", l, r),
             BinOp::Eq(_) if t == Ty::Bool => format!("(Bool.eqb {} {})", l, r),
             BinOp::Ne(_) if t == Ty::Bool => format!("(xorb {} {})", l, r),
+            BinOp::Eq(_) if t == Ty::BType => format!("(btype_eqb {} {})", l, r),
+            BinOp::Ne(_) if t == Ty::BType => format!("(negb (btype_eqb {} {}))", l, r),
             BinOp::Eq(_) if t == Ty::Side => format!("(side_eqb {} {})", l, r),
             BinOp::Ne(_) if t == Ty::Side => format!("(negb (side_eqb {} {}))", l, r),
             _ => return Err(format!("operator on operands of type {:?}", t)),
@@ -580,6 +621,33 @@ impl Cx {
                 let x = self.fresh("t");
                 self.tr(inner, &format!("(fun {} => (bind (usize_to_i32 {}) {}))", x, x, k))
             }
+            Expr::MethodCall(m) if m.args.is_empty() && ["clone", "into_iter", "iter", "as_bytes", "as_ref", "to_owned", "as_deref"].contains(&m.method.to_string().as_str()) => self.tr(&m.receiver, k),
+            Expr::MethodCall(m) if m.args.is_empty() && (m.method == "len" || m.method == "first") => {
+                let x = self.fresh("t");
+                let body = if m.method == "len" { format!("(Z.of_nat (length {}))", x) } else { format!("(hd_error {})", x) };
+                self.tr(&m.receiver, &format!("(fun {} => ({} {}))", x, k, body))
+            }
+            Expr::MethodCall(m) if (m.method == "expect" || m.method == "unwrap") => {
+                // Option::unwrap: panics on None
+                let x = self.fresh("t");
+                self.tr(&m.receiver, &format!("(fun {} => (bind (opt_unwrap {}) {}))", x, x, k))
+            }
+            Expr::MethodCall(m) if m.method == "map" && m.args.len() == 1 && matches!(&m.args[0], Expr::Closure(_)) && matches!(self.ty(&m.receiver), Ty::Opt(_)) => {
+                // Option::map(|x| BODY)
+                let clo = match &m.args[0] { Expr::Closure(c) => c, _ => unreachable!() };
+                if clo.inputs.len() != 1 { return Err("closure arity".into()); }
+                let inner = match self.ty(&m.receiver) { Ty::Opt(t) => *t, _ => Ty::Other };
+                let mark = self.env.len(); let mmark = self.muts.len();
+                self.tuple_hint = vec![];
+                let (p, irr) = self.pat(&clo.inputs[0], inner)?;
+                if !irr { return Err("refutable closure parameter".into()); }
+                self.retk_stack.push("(fun x => Ret x)".into());
+                let body = self.tr(&clo.body, "(fun x => Ret x)");
+                self.retk_stack.pop();
+                self.env.truncate(mark); self.muts.truncate(mmark);
+                let src = self.fresh("a");
+                self.tr(&m.receiver, &format!("(fun {} => (bind (opt_mapM (fun {} => {}) {}) {}))", src, p, body?, src, k))
+            }
             Expr::MethodCall(m) if m.method == "collect" && matches!(&*m.receiver, Expr::MethodCall(i) if i.method == "map" && i.args.len() == 1) => {
                 // ITER.map(|x| BODY).collect()  ==>  the bodies evaluated in order over the elements
                 let mp = match &*m.receiver { Expr::MethodCall(i) => i, _ => unreachable!() };
@@ -615,6 +683,17 @@ impl Cx {
                 let names: Vec<String> = t.elems.iter().map(|_| self.fresh("a")).collect();
                 let mut acc = format!("({} ({}))", k, names.join(", "));
                 for (a, n) in t.elems.iter().zip(names.iter()).rev() { acc = self.tr(a, &format!("(fun {} => {})", n, acc))?; }
+                Ok(acc)
+            }
+            Expr::Struct(s) if struct_ctor(&path_str(&s.path)).is_some() => {
+                let (ctor, order) = struct_ctor(&path_str(&s.path)).unwrap();
+                let names: Vec<String> = order.iter().map(|_| self.fresh("a")).collect();
+                let mut acc = format!("({} ({} {}))", k, ctor, names.join(" "));
+                for (fname, n) in order.iter().zip(names.iter()).rev() {
+                    let fv = s.fields.iter().find(|f| matches!(&f.member, Member::Named(m) if m == fname)).ok_or(format!("field `{}` of the struct literal", fname))?;
+                    acc = self.tr(&fv.expr, &format!("(fun {} => {})", n, acc))?;
+                }
+                if s.fields.len() != order.len() || s.rest.is_some() { return Err("struct literal with other fields than expected".into()); }
                 Ok(acc)
             }
             Expr::Struct(s) => {
@@ -752,6 +831,28 @@ fn ret_type(t: &Type) -> Option<String> {
     }
 }
 
+/// struct literals of the eligibility conversions: constructor of Tie/RsPrelude.v and its field order
+fn struct_ctor(name: &str) -> Option<(&'static str, &'static [&'static str])> {
+    Some(match name {
+        "FastOpt" => ("mkGFO", &["delimiter", "join", "eol", "bounds", "only_delimited", "trim", "fallback_oob"]),
+        "StreamOpt" => ("mkGSO", &["delimiter", "replace_delimiter", "join", "eol", "bounds", "fallback_oob"]),
+        _ => return None,
+    })
+}
+
+fn result_of_self(t: &Type) -> bool {
+    if let Type::Path(p) = t {
+        if let Some(seg) = p.path.segments.last() {
+            if seg.ident == "Result" {
+                if let PathArguments::AngleBracketed(a) = &seg.arguments {
+                    if let Some(GenericArgument::Type(Type::Path(q))) = a.args.first() { return path_str(&q.path) == "Self"; }
+                }
+            }
+        }
+    }
+    false
+}
+
 fn quote_type(t: &Type) -> String {
     match t { Type::Path(p) => path_str(&p.path), Type::Reference(r) => quote_type(&r.elem), _ => "UNKNOWN".into() }
 }
@@ -779,11 +880,12 @@ fn translate(t: &Target, sig: &Signature, block: &Block, ret_tys: &HashMap<Strin
                       call_ty: t.calls.iter().filter_map(|(a, b)| ret_tys.get(*b).map(|ty| (a.to_string(), ty.clone()))).collect(),
                       tuple_hint: vec![], ret_ty: String::new(), inline_k: false, muts: vec![], retk_stack: vec![] };
     cx.inline_k = quote::ToTokens::to_token_stream(block).to_string().contains("let mut ");
-    let self_coq = match t.impl_self { Some("Side") => ("side", Ty::Side), Some("UserBounds") => ("ubound", Ty::UB), Some("UserBoundsList") => ("ublist", Ty::Other), _ => ("UNKNOWN", Ty::Other) };
+    let self_coq = match t.impl_self { Some("Side") => ("side", Ty::Side), Some("UserBounds") => ("ubound", Ty::UB), Some("UserBoundsList") => ("ublist", Ty::Other), Some("FastOpt") => ("gfopt", Ty::Other), Some("StreamOpt") => ("gsopt", Ty::Other), _ => ("UNKNOWN", Ty::Other) };
     let mut rty = Ty::Other;
     cx.ret_ty = match &sig.output {
         ReturnType::Type(_, t) => {
             if matches!(&**t, Type::Path(p) if path_str(&p.path) == "Self") { rty = self_coq.1.clone(); self_coq.0.to_string() }
+            else if result_of_self(t) { rty = Ty::Opt(Box::new(self_coq.1.clone())); format!("(option {})", self_coq.0) }
             else { rty = ty_of_type(t).1; ret_type(t).ok_or("return type")? }
         }
         ReturnType::Default => "unit".into(),
@@ -839,6 +941,7 @@ fn main() {
                 writeln!(text, "From Coq Require Import ZArith Bool List.").unwrap();
                 writeln!(text, "From TucModel Require Import Base.Bytes Model.Bounds Tie.RsPrelude.").unwrap();
                 for d in t.deps { writeln!(text, "From TucModel Require Import Tie.Gen_{}.", d).unwrap(); }
+                if !t.imports.is_empty() { writeln!(text, "From TucModel Require Import {}.", t.imports).unwrap(); }
                 writeln!(text, "Import ListNotations.\nLocal Open Scope Z_scope.\n").unwrap();
                 text.push_str(&def);
                 let old = std::fs::read_to_string(&outfile).unwrap_or_default();
